@@ -30,6 +30,11 @@ func CalculateBackoff(cfg BackoffConfig, attempt int) time.Duration {
 	if backoff > float64(cfg.MaxBackoff) {
 		backoff = float64(cfg.MaxBackoff)
 	}
+	// 0 * +Inf (zero InitialBackoff, attempt number large enough for the power to
+	// overflow) is NaN, which would convert to a negative duration.
+	if math.IsNaN(backoff) {
+		backoff = 0
+	}
 
 	jitterAmount := backoff * cfg.Jitter * (rand.Float64()*2 - 1)
 	finalBackoff := backoff + jitterAmount
